@@ -566,7 +566,9 @@ class FilesParagraph(deb822.RestrictedWrapper):
         pat = self.files_pattern()
         if pat is None:
             return False
-        return pat.match(filename) is not None
+        # fullmatch: every glob (not only the last alternative) must match
+        # the entire file name
+        return pat.fullmatch(filename) is not None
 
     files = deb822.RestrictedField(
         'Files', from_str=_SpaceSeparated.from_str,
